@@ -430,6 +430,9 @@ impl DicomTime {
      * which leads to the precision `HHMMSS.FFF`. Millisecond cannot exceed `999`.
      */
     pub fn from_hms_milli(hour: u8, minute: u8, second: u8, millisecond: u32) -> Result<DicomTime> {
+        check_component(DateComponent::Hour, &hour)?;
+        check_component(DateComponent::Minute, &minute)?;
+        check_component(DateComponent::Second, &second)?;
         check_component(DateComponent::Millisecond, &millisecond)?;
         Ok(DicomTime(DicomTimeImpl::Fraction(
             hour,
@@ -446,6 +449,9 @@ impl DicomTime {
     /// Microsecond cannot exceed `999_999`.
     /// Instead, leap seconds can be represented by setting `second` to 60.
     pub fn from_hms_micro(hour: u8, minute: u8, second: u8, microsecond: u32) -> Result<DicomTime> {
+        check_component(DateComponent::Hour, &hour)?;
+        check_component(DateComponent::Minute, &minute)?;
+        check_component(DateComponent::Second, &second)?;
         check_component(DateComponent::Fraction, &microsecond)?;
         Ok(DicomTime(DicomTimeImpl::Fraction(
             hour,
